@@ -88,6 +88,7 @@ type ContractSet struct {
 	ByKey    map[string]*Contract
 	Pures    map[string]*PureDef
 	LockHavoc []string
+	RecvHavoc map[string][]string // "pkg::T.ch" -> fields forgotten at a receive
 	TypeInvs map[string]*PureDef // "pkgpath.T" -> invariant over self
 	TypeSteps map[string]*PureDef // "pkgpath.T" -> two-state invariant over self
 	Ghosts   map[string]*GhostDecl
@@ -195,7 +196,7 @@ func (cs *ContractSet) loadContractFile(path, pkg string) error {
 			kw, rest = t[:i], t[i+1:]
 		}
 		switch kw {
-		case "ghost", "pure", "ufunc", "const", "monotone", "atomic", "linear", "typeinv", "typestep", "lockhavoc", "func", "iface", "extern", "lemma", "axiom",
+		case "ghost", "pure", "ufunc", "const", "monotone", "atomic", "linear", "typeinv", "typestep", "lockhavoc", "recvhavoc", "func", "iface", "extern", "lemma", "axiom",
 			"arith", "requires", "ensures", "modifies", "loop", "inline", "trusted", "borrows", "opt", "package", "exitghost", "callassume", "callghost", "atcall":
 			if err := flush(); err != nil {
 				return err
@@ -308,6 +309,19 @@ func (cs *ContractSet) addClause(cur **Contract, pkg, kw, rest, where string) er
 		}
 		name := strings.TrimSpace(rest[:i])
 		cs.Pures[name] = &PureDef{Name: name, Params: names, Body: body, Src: rest[k+1:]}
+		*cur = nil
+	case "recvhavoc":
+		// recvhavoc T.ch f1 f2: a receive from field ch of an object of type T
+		// synchronises with the goroutine that owns the object's fields f1, f2:
+		// their values before the receive say nothing about their values after
+		f := strings.Fields(rest)
+		if len(f) < 2 {
+			return fmt.Errorf("%s: malformed recvhavoc", where)
+		}
+		if cs.RecvHavoc == nil {
+			cs.RecvHavoc = map[string][]string{}
+		}
+		cs.RecvHavoc[pkg+"::"+f[0]] = append(cs.RecvHavoc[pkg+"::"+f[0]], f[1:]...)
 		*cur = nil
 	case "lockhavoc":
 		// ghost state that is only meaningful within one lock hold
